@@ -164,6 +164,27 @@ static void corpus_misc(void)
     randombytes_buf_deterministic(O, 1000, K); rec("randombytes_buf_deterministic", 1000, 0, 0, O, 1000);
 }
 
+/* Poly1305 on accumulator / key boundaries: the backward-built cases of ref/gen_poly_cases.py (when available) and homogeneous runs with tiny r */
+static void corpus_poly(void)
+{
+    const char *path = getenv("VERIF_POLY_CASES"); FILE *f; unsigned char key[32], blk[16], *msg = O2; int r, ri, nb, pl; size_t i;
+    family("poly1305-boundaries");
+    for (ri = 1; ri <= 5; ri++) for (blk[0] = 0; blk[0] < 3; blk[0]++) for (nb = 0; nb <= 40; nb++) for (pl = 0; pl < 16; pl += 5) {
+        unsigned char fill = blk[0] == 0 ? 0xff : blk[0] == 1 ? 0xfb : 0x00;
+        memset(key, 0, 32); key[0] = (unsigned char) ri; key[16] = (unsigned char) (nb & 1 ? 0xff : 5);
+        memset(msg, 0xff, (size_t) (16 * nb + pl)); for (i = 0; i < (size_t) nb; i++) msg[16 * i] = fill;
+        r = crypto_onetimeauth(O, msg, (size_t) (16 * nb + pl), key); rec("onetimeauth-run", (long) (ri * 100 + blk[0]), (long) (nb * 16 + pl), r, O, 16);
+    }
+    if (path && (f = fopen(path, "rb"))) {
+        uint32_t n, k; unsigned char hdr[34], tail[40]; static unsigned char m[70000];
+        if (fread(&n, 4, 1, f) != 1) exit(2);
+        for (k = 0; k < n; k++) { size_t len; if (fread(hdr, 1, 34, f) != 34) exit(2); len = (size_t) (hdr[32] | hdr[33] << 8); if (fread(m, 1, len, f) != len || fread(tail, 1, 40, f) != 40) exit(2);
+            r = crypto_onetimeauth(O, m, len, hdr); rec("onetimeauth-built-backwards", (long) k, (long) len, r, O, 16);
+            if (memcmp(O, tail, 16)) rec("onetimeauth-built-backwards-differs-from-definition", (long) k, (long) len, r, O, 16); }
+        fclose(f);
+    } else printf("INFO poly cases file not available\n");
+}
+
 int main(void)
 {
     int i, gcm, want_gcm;
@@ -171,7 +192,7 @@ int main(void)
     randombytes_set_implementation(&RI);
     if (sodium_init() < 0) return 2;
     vf_pat(M, sizeof M, PAT_R1, 900); vf_pat(K, 64, PAT_R2, 901); vf_pat(N24, 32, PAT_C, 902); vf_pat(AD, sizeof AD, PAT_H, 903);
-    corpus_stream(); corpus_hash(); corpus_aead(); corpus_curve(); corpus_pwhash(); corpus_misc();
+    corpus_stream(); corpus_hash(); corpus_aead(); corpus_curve(); corpus_pwhash(); corpus_misc(); corpus_poly();
     for (i = 0; i < nfam; i++) printf("INFO DIGEST %s %016llx%016llx %lu\n", FAMS[i].name, (unsigned long long) FAMS[i].h1, (unsigned long long) FAMS[i].h2, FAMS[i].cases);
     /* AES-256-GCM availability must equal pclmul AND aesni AND avx of the (masked) flags; unavailable builds fail cleanly */
     gcm = crypto_aead_aes256gcm_is_available(); want_gcm = sodium_runtime_has_pclmul() && sodium_runtime_has_aesni() && sodium_runtime_has_avx();
